@@ -59,6 +59,49 @@ Proof. repeat split. Qed.
 Lemma same_aux_trans a b c : same_aux a b -> same_aux b c -> same_aux a c.
 Proof. unfold same_aux. intuition congruence. Qed.
 
+(* ---------- frame: what a published target slice (block b, first tl bytes) can rely on ---------- *)
+(* the blocks the writer may still store into *)
+Definition cblocks (st : wstate) : list nat :=
+  map fst (pend st) ++ match cur st with Some (c, _) => [c] | None => [] end.
+
+(* block b is the oldest buffer of the chain and holds at least the first tl logical bytes *)
+Definition head_at (st : wstate) (b : nat) (tl : N) : Prop :=
+  match pend st, cur st with
+  | (pb, lb) :: _, _ => pb = b /\ tl <= lb
+  | [], Some (c, l) => c = b /\ tl <= l
+  | [], None => False
+  end.
+
+(* the first tl bytes of block b will not be stored into any more: the slice is empty, or the
+   block has left the writer, or it is the oldest buffer and every live region lies beyond tl *)
+Definition tgt_ok (st : wstate) (b : nat) (tl : N) : Prop :=
+  tl = 0 \/
+  ((b < length (store st))%nat /\ ~ In b (cblocks st)) \/
+  (head_at st b tl /\ Forall (fun r => tl <= roff r) (live st)).
+
+Definition tgt_pres (st st' : wstate) : Prop :=
+  forall b tl, tgt_ok st b tl ->
+    tgt_ok st' b tl /\ take tl (block (store st') b) = take tl (block (store st) b).
+
+Lemma tgt_pres_refl st : tgt_pres st st.
+Proof. intros b tl H. split; [exact H | reflexivity]. Qed.
+
+Lemma tgt_pres_trans a b c : tgt_pres a b -> tgt_pres b c -> tgt_pres a c.
+Proof.
+  intros H1 H2 x tl H. destruct (H1 x tl H) as (Hb & Eb). destruct (H2 x tl Hb) as (Hc & Ec).
+  split; [exact Hc | congruence].
+Qed.
+
+Lemma head_at_facts st b tl :
+  Inv st -> head_at st b tl -> (b < length (store st))%nat /\ tl <= cur_len st /\ In b (cblocks st).
+Proof.
+  intros [Hc _ _ _] Hh. unfold head_at, cur_len, cblocks in *.
+  destruct (pend st) as [|[pb lb] rest] eqn:Ep; destruct (cur st) as [[c l]|] eqn:Ec; try contradiction; try discriminate.
+  - cbn [chain] in Hc. destruct Hh as (<- & Hh). cbn [map app In]. intuition lia.
+  - cbn [chain] in Hc. destruct Hh as (<- & Hh). destruct Hc as (_ & _ & H3 & _ & _ & H6).
+    pose proof (chain_le _ _ _ _ _ H6). cbn [map fst app In]. intuition lia.
+Qed.
+
 (* ---------- the doubling loops never run out of fuel ---------- *)
 Lemma fuel_enough n : n < 2 ^ N.of_nat (loop_fuel n).
 Proof.
@@ -124,7 +167,7 @@ Qed.
 
 Definition acquire_post (st : wstate) (n : N) (st1 : wstate) : Prop :=
   Inv st1 /\ Lof st1 = Lof st /\ cur_len st1 = cur_len st /\ cur_len st1 + n <= cur_cap st1 /\
-  same_aux st st1 /\ live st1 = live st /\ (cur st1 = None -> cur st = None).
+  same_aux st st1 /\ live st1 = live st /\ (cur st1 = None -> cur st = None) /\ tgt_pres st st1.
 
 Ltac simp_st :=
   cbn [with_mem with_live cur store pend werr nocache buckets bidx sink live nstale freed] in *.
@@ -148,7 +191,7 @@ Proof.
     rewrite block_alloc_new.
     destruct (N.ltb_spec (len x - 0) n) as [Hlt|_]; [exfalso; lia|].
     eexists. split; [reflexivity|].
-    unfold acquire_post. split; [|split; [|split; [|split; [|split; [|split]]]]].
+    unfold acquire_post. split; [|split; [|split; [|split; [|split; [|split; [|split]]]]]].
     + constructor; simp_st.
       * rewrite Hp. cbn [chain]. rewrite block_alloc_new, app_length. cbn [length]. lia.
       * left. exact Hp.
@@ -161,6 +204,14 @@ Proof.
     + repeat split.
     + reflexivity.
     + simp_st. discriminate.
+    + intros b tl Hok. destruct Hok as [->|[(Hlt & Hnin)|(Hh & Hall)]].
+      * split; [left; reflexivity | reflexivity].
+      * split.
+        -- right; left. simp_st. rewrite app_length. cbn [length]. split; [lia|].
+           unfold cblocks. simp_st. rewrite Hp. cbn [map app In]. lia.
+        -- simp_st. now rewrite block_alloc_old.
+      * destruct (head_at_facts _ _ _ HI Hh) as (_ & Htl & _).
+        assert (tl = 0) by lia. subst tl. split; [left; reflexivity | reflexivity].
   - (* growth *)
     cbn [bind].
     pose proof (len_le_cap _ HI) as Hle.
@@ -168,10 +219,10 @@ Proof.
     destruct (grow_until_ok n (cur_len st) (loop_fuel n) (cur_cap st * 2)) as (nc & Enc & Hnc1 & Hnc2); [lia | nia |].
     rewrite Enc.
     destruct (new_block_spec dirty (nocache st) (store st) nc) as (x & Ex & Hx). rewrite Ex.
-    destruct HI as [Hc Hcap Hown Hrch].
-    unfold cur_cap, cur_len in *. destruct (cur st) as [[c l]|] eqn:Ecur; [|exfalso; lia].
+    pose proof HI as HI0. destruct HI as [Hc Hcap Hown Hrch].
+    unfold cur_cap, cur_len in Hc, Hcap, Hown, Hrch, Hn, H0, Hle, Enc, Hnc1, Hnc2 |- *. destruct (cur st) as [[c l]|] eqn:Ecur; [|exfalso; lia].
     eexists. split; [reflexivity|].
-    unfold acquire_post. split; [|split; [|split; [|split; [|split; [|split]]]]].
+    unfold acquire_post. split; [|split; [|split; [|split; [|split; [|split; [|split]]]]]].
     + constructor; simp_st.
       * apply chain_park; [exact Hc | lia].
       * right. unfold cur_cap. simp_st. rewrite block_alloc_new. lia.
@@ -184,6 +235,19 @@ Proof.
     + repeat split.
     + reflexivity.
     + simp_st. discriminate.
+    + intros b tl Hok. destruct Hok as [->|[(Hlt & Hnin)|(Hh & Hall)]].
+      * split; [left; reflexivity | reflexivity].
+      * split.
+        -- right; left. simp_st. rewrite app_length. cbn [length]. split; [lia|].
+           unfold cblocks in *. simp_st. rewrite Ecur in Hnin. rewrite map_app. cbn [map fst].
+           rewrite !in_app_iff in *. cbn [In] in *. intros [[Hi|[Hi|[]]]|[Hi|[]]]; try tauto; lia.
+        -- simp_st. now rewrite block_alloc_old.
+      *         destruct (head_at_facts _ _ _ HI0 Hh) as (Hlt & _ & _).
+        split.
+        -- right; right. split; [|simp_st; exact Hall].
+           unfold head_at in *. simp_st. rewrite Ecur in Hh.
+           destruct (pend st) as [|[pb lb] rest]; cbn [app]; exact Hh.
+        -- simp_st. now rewrite block_alloc_old.
 Qed.
 
 Lemma acquire_ok dirty st n :
